@@ -7,7 +7,8 @@ CONSTANTS
   Keys <- MC_Keys
   AbsentKey = "K0"
   MaxKeyN = 3
-  SizeDomain <- MC_AllN
+  MaxEntries = 65535
+  SizeDomain <- MC_NearBoundary
   FinalCompare = TRUE
   Clamp = "zero"
   SizeBits = 16
@@ -17,3 +18,4 @@ INVARIANT TypeOK
 INVARIANT Inv_BoundaryExact
 INVARIANT Inv_SectionLayout
 INVARIANT Inv_EntryIndexFits
+INVARIANT Inv_Monotone
